@@ -85,6 +85,9 @@ func solveAll(obs []*Obligation, dir string, timeoutS int, keep bool) {
 			if o.Cover {
 				q.Goal = nil
 			}
+			// overall budget for the staged attempts (the final full query always gets its own timeout)
+			t0 := time.Now()
+			over := func() bool { return time.Since(t0) > time.Duration(2*timeoutS)*time.Second }
 			o.File = writeQuery(dir, o.Name, q.Script(nil))
 			if o.Cover {
 				// vacuity guard: hypotheses must be satisfiable. Quantified hypotheses make "sat" hard to
@@ -152,8 +155,45 @@ func solveAll(obs []*Obligation, dir string, timeoutS int, keep bool) {
 						}
 					}
 				}
+				// small obligations: the plainly instantiated query first (one cheap call)
+				if !done && qf != nil && len(qf.Hyps) <= 300 {
+					f := writeQuery(dir, o.Name+".inst0", qf.Script(nil))
+					r := RunPortfolio(f, 3, "")
+					if r.Status == "unsat" {
+						r.Solver += "+inst0"
+						o.Res = r
+						done = true
+					}
+					if !keep {
+						os.Remove(f)
+					}
+				}
+				// the two smallest stages of goal-directed trigger matching, briefly
+				dstages := []*Query(nil)
+				if !done && os.Getenv("GOVC_NODINST") == "" {
+					dstages = q.DirectedStages(dinstRounds())
+					for si, dq := range dstages {
+						if done || si >= 2 {
+							break
+						}
+						sfx := fmt.Sprintf(".dinst%d", si)
+						if os.Getenv("GOVC_NONORM") == "" {
+							dq = dq.Normalized()
+						}
+						f := writeQuery(dir, o.Name+sfx, dq.Script(nil))
+						r := RunPortfolio(f, 4, "")
+						if r.Status == "unsat" {
+							r.Solver += "+" + sfx[1:]
+							o.Res = r
+							done = true
+						}
+						if !keep {
+							os.Remove(f)
+						}
+					}
+				}
 				// counterexample-guided hypothesis selection over the quantifier-free hypotheses and directed instances
-				if !done && os.Getenv("GOVC_NOLAZY") == "" {
+				if !done && !over() && os.Getenv("GOVC_NOLAZY") == "" {
 					if lg, lc := q.LazyCandidates(dinstRounds()); lg != nil && len(lc) > 0 {
 						ct := timeoutS
 						if ct > 10 {
@@ -163,10 +203,19 @@ func solveAll(obs []*Obligation, dir string, timeoutS int, keep bool) {
 							nq := (&Query{Hyps: lc, Goal: lg}).Normalized()
 							lg, lc = nq.Goal, nq.Hyps
 						}
-						r := lazySplit(lg, lc, q.Extra, q.FPMode, dir, o.Name, ct, 60, keep, 2)
+						dl := t0.Add(time.Duration(timeoutS) * time.Second)
+						r := lazySplit(lg, lc, q.Extra, q.FPMode, dir, o.Name, ct, 60, keep, 2, dl)
 						if r.Status == "unsat" {
 							o.Res = r
 							done = true
+						} else if ab := (&Query{Hyps: lc, Goal: lg}).AbstractArith(); ab != nil {
+							// the same with multiplication/division/remainder as uninterpreted functions
+							r2 := lazySplit(ab.Goal, ab.Hyps, q.Extra, q.FPMode, dir, o.Name+".abs", ct, 60, keep, 1, dl.Add(time.Duration(timeoutS/2)*time.Second))
+							if r2.Status == "unsat" {
+								r2.Solver += "+abs"
+								o.Res = r2
+								done = true
+							}
 						}
 					}
 				}
@@ -210,7 +259,7 @@ func solveAll(obs []*Obligation, dir string, timeoutS int, keep bool) {
 						}
 					}
 				}
-				for round := 0; round < 3 && !done && qf != nil; round++ {
+				for round := 0; round < 3 && !done && qf != nil && !over(); round++ {
 					suffix := ".inst"
 					if round >= 1 {
 						// further attempts: also instantiate at sub-terms of index expressions, then at width casts
